@@ -258,6 +258,8 @@ func checkC03(p *Program, r *Report) {
 		}
 	}
 	c03BodyLengthFlow(p, r)
+	c03DecompressConsumes(p, r)
+	c03LimitReaderContext(p, r)
 }
 
 func methodOfNamed(n *types.Named, name string) *types.Func {
@@ -371,3 +373,129 @@ func c03BodyLengthFlow(p *Program, r *Report) {
 }
 
 var _ = token.ADD
+
+// c03DecompressConsumes: the frame decoder hands the decompressor exactly the declared body
+// (io.LimitReader(source, BodyLength)); for the next frame to start at the right offset every
+// successful DecompressWithLength path must consume what the matching CompressWithLength wrote:
+// after the optional length prefix it must perform at least one further read (a drain of the
+// source or a fixed-size discard) - a path that returns after the prefix alone leaves body bytes
+// on the stream.
+func c03DecompressConsumes(p *Program, r *Report) {
+	r.Floor("decompress-consumes", 2)
+	for _, short := range []string{"compression/lz4", "compression/snappy"} {
+		tn := p.LookupType(short, "Compressor")
+		fn := methodOfNamed(tn.Type().(*types.Named), "DecompressWithLength")
+		if fn == nil {
+			fatalf("anchor: %s.Compressor.DecompressWithLength", short)
+		}
+		h := newWireHooks(p, true)
+		in := newInterp(p, h)
+		recv := Val{K: KExpr, Key: "recv"}
+		// call context: frame.DecodeBody passes io.LimitReader(source, BodyLength) (checked below)
+		limited := types.NewPointer(p.stdType("io", "LimitedReader"))
+		outs := in.RunFunc(fn, &recv, []Val{{K: KExpr, Key: "source", DynT: limited}, {K: KExpr, Key: "dest"}}, nil)
+		key := short + ".DecompressWithLength"
+		bad := ""
+		n := 0
+		for _, o := range outs {
+			if o.IsErr == 1 {
+				continue
+			}
+			n++
+			reads := 0
+			var names []string
+			var walk func(tr []*Sym)
+			walk = func(tr []*Sym) {
+				for _, s := range tr {
+					switch {
+					case s.Kind == "op" && strings.HasPrefix(s.Extra, "r"):
+						reads++
+						names = append(names, s.Name)
+					case s.Kind == "ext" && (strings.HasSuffix(s.Name, ".ReadFrom") || s.Name == "io.CopyN" || s.Name == "io.Copy" || s.Name == "io.ReadAll" || s.Name == "io/ioutil.ReadAll"):
+						reads++
+						names = append(names, s.Name)
+					case s.Kind == "loop":
+						for _, b := range s.Body {
+							walk(b.St.trace)
+						}
+					}
+				}
+			}
+			walk(o.St.trace)
+			hasPrefix := len(names) > 0 && strings.HasPrefix(names[0], "fixed")
+			if reads == 0 || (hasPrefix && reads < 2) {
+				bad = fmt.Sprintf("a success path reads only %v from the source and returns (conditions {%s}): the rest of the declared body stays on the stream and the next frame is misread", names, describeAtoms(o.St))
+			}
+		}
+		if n == 0 {
+			bad = "no success path"
+		}
+		if bad != "" {
+			r.Fail("decompress-consumes", key, fn.Pos(), "%s", bad)
+		} else {
+			r.OKf("decompress-consumes", key, fn.Pos(), "%d success paths each read past the length prefix", n)
+		}
+	}
+}
+
+// stdType looks up a type of an imported (non-module) package.
+func (p *Program) stdType(path, name string) types.Type {
+	for _, pk := range p.All {
+		if pk.PkgPath == path {
+			if tn, ok := pk.Types.Scope().Lookup(name).(*types.TypeName); ok {
+				return tn.Type()
+			}
+		}
+	}
+	fatalf("anchor: type %s.%s not loaded", path, name)
+	return nil
+}
+
+// c03LimitReaderContext: every DecompressWithLength call in package frame receives
+// io.LimitReader(source, int64(header.BodyLength)).
+func c03LimitReaderContext(p *Program, r *Report) {
+	n := 0
+	for _, fn := range p.ModuleFuncs() {
+		pk := fn.Package()
+		if pk == nil || shortPkg(pk.Pkg) != "frame" {
+			continue
+		}
+		for _, b := range fn.Blocks {
+			for _, ins := range b.Instrs {
+				c, ok := ins.(*ssa.Call)
+				if !ok || !c.Call.IsInvoke() || c.Call.Method.Name() != "DecompressWithLength" {
+					continue
+				}
+				n++
+				key := fnKey(fn) + " DecompressWithLength source"
+				src := c.Call.Args[0]
+				if mi, ok := src.(*ssa.MakeInterface); ok {
+					src = mi.X
+				}
+				call, ok := src.(*ssa.Call)
+				okArg := false
+				if ok {
+					if f := call.Call.StaticCallee(); f != nil && f.String() == "io.LimitReader" {
+						lim := call.Call.Args[1]
+						if cv, ok := lim.(*ssa.Convert); ok {
+							lim = cv.X
+						}
+						if u, ok := lim.(*ssa.UnOp); ok {
+							if _, fld, ok := fieldAddrOf(u.X); ok && fld.Name() == "BodyLength" {
+								okArg = true
+							}
+						}
+					}
+				}
+				if okArg {
+					r.OKf("compressed-body-bounded", key, c.Pos(), "compressed body is read through io.LimitReader(source, header.BodyLength)")
+				} else {
+					r.Fail("compressed-body-bounded", key, c.Pos(), "the decompressor is not handed io.LimitReader(source, header.BodyLength): it may read beyond (or short of) the declared body")
+				}
+			}
+		}
+	}
+	if n == 0 {
+		fatalf("anchor: no DecompressWithLength call found in package frame")
+	}
+}
